@@ -42,7 +42,7 @@ pub struct Choice {
   src: SrcChoice,
   node: Index,
   holes: Vec<HolePick>,
-  /// 0 origin, 1 other node of the same kind, 2 mutated copy
+  /// 0 origin, 1 other node of the same kind, 2 mutated copy, 3 copy with the abstracted parts deleted
   cand_mode: u8,
   cand: Index,
   muts: Vec<Mutn>,
@@ -56,7 +56,7 @@ pub fn strategy(opts: &SrcOpts) -> BoxedStrategy<Choice> {
     gen::src_choice(opts),
     any::<Index>(),
     prop::collection::vec(hole, 0..=3),
-    prop_oneof![1 => Just(0u8), 3 => Just(1u8), 4 => Just(2u8)],
+    prop_oneof![1 => Just(0u8), 3 => Just(1u8), 4 => Just(2u8), 2 => Just(3u8)],
     any::<Index>(),
     prop::collection::vec(mutn, 1..=2),
   )
@@ -114,6 +114,30 @@ fn cut_free(src: &str, n: &TsNode, picks: &[HolePick]) -> String {
   }
   text.push_str(&src[at..n.end_byte() as usize]);
   text
+}
+
+/// the byte ranges cut_free replaces, in source order
+fn hole_regions(src: &str, n: &TsNode, picks: &[HolePick]) -> Vec<(usize, usize)> {
+  let mut desc: Vec<TsNode> = tsutil::preorder(n.clone())
+    .into_iter()
+    .skip(1)
+    .filter(|d| d.end_byte() > d.start_byte() && d.byte_range() != n.byte_range())
+    .collect();
+  desc.sort_by_key(|d| (d.end_byte() - d.start_byte(), d.start_byte()));
+  let _ = src;
+  let mut repl: Vec<(usize, usize)> = vec![];
+  if !desc.is_empty() {
+    for p in picks {
+      let d = &desc[p.node.index(desc.len())];
+      let (s, e) = (d.start_byte() as usize, d.end_byte() as usize);
+      if repl.iter().any(|r| s < r.1 && r.0 < e) {
+        continue;
+      }
+      repl.push((s, e));
+    }
+  }
+  repl.sort();
+  repl
 }
 
 fn pattern_root_kind(p: &PatternNode) -> Option<u16> {
@@ -185,6 +209,29 @@ pub fn interpret(corpus: &Corpus, opts: &SrcOpts, ch: &Choice, st: &mut Stats) -
         c.kind().to_string(),
         c.id() == n.id(),
       )
+    }
+    3 => {
+      // the origin with the text of every abstracted descendant deleted: what a `$$$` hole stood
+      // for is now empty (`init($$$W0)` against `init()`), a `$V` hole has nothing to bind
+      let regions = hole_regions(&built.text, n, &ch.holes);
+      if regions.is_empty() {
+        st.discard("no hole to delete");
+        return None;
+      }
+      let mut text2 = built.text.clone();
+      for (s, e) in regions.iter().rev() {
+        text2.replace_range(*s..*e, "");
+      }
+      let sg2 = parse(lang, &text2);
+      let kind = n.kind_id();
+      let start = n.start_byte();
+      let all = tsutil::preorder(sg2.root().get_ts_node());
+      let Some(c) = all.iter().find(|c| c.start_byte() == start && c.kind_id() == kind) else {
+        st.discard("emptied copy lost its kind");
+        return None;
+      };
+      st.label("cand_emptied");
+      (text2.clone(), c.start_byte() as usize, c.end_byte() as usize, c.kind().to_string(), false)
     }
     _ => {
       // mutated copy of n: mutations scoped to n's span, candidate = same-kind node at n.start
@@ -597,6 +644,11 @@ pub fn check(case: &Case, st: &mut Stats) -> CheckResult {
         fail!(format!("C03:match-len-exceeds:{s}"), "pattern {:?} (selector {:?}) matches {}..{} ({}) {:?} under `{s}` but get_match_len reports {len} > node length {node_len}; pattern tree {:?}; candidate {}", case.pattern, case.selector, case.cand_start, case.cand_end, case.cand_kind, &case.source[case.cand_start..case.cand_end.min(case.source.len())], pattern, c_ts.to_sexp());
       }
       let end = case.cand_start + len;
+      if tsutil::children(&c_ts).iter().any(|k| (k.start_byte() as usize) < end && end < (k.end_byte() as usize)) {
+        // recorded only: on the unchanged tree a matched prefix legitimately ends inside a direct
+        // child (`qux(x, x)` against `qux(x, x,)`), so only token splitting is asserted below
+        st.label("diag_end_inside_direct_child");
+      }
       if let Some(t) = leaf_tokens(&c_ts)
         .iter()
         .find(|t| (t.start_byte() as usize) < end && end < (t.end_byte() as usize))
